@@ -68,8 +68,14 @@ def make_payload(kind, nrec, variant, sdir, rng):
         # given - decomposed accent as macOS produces, ANGSTROM SIGN, ligature: the receiver must get exactly these)
         names = ["f.bin", "with space.txt", "ünï.dat", "-dash", "trailing.tmp", "cafe\u0301.txt", "\u212bngstrom \ufb01le.bin"]
         name = names[(variant + rng.randrange(len(names))) % len(names)]
+        # content: random bytes; or long runs of one byte value - all zeros, zeros in the last / first record only (a disk
+        # image, a padded archive), all 0xff - which a writer that treats some bytes specially would give itself away on
+        prof = rng.randrange(6)
+        tail = min(size, CHUNK if size % CHUNK == 0 else size % CHUNK)
+        content = [rng.randbytes(size), bytes(size), rng.randbytes(size - tail) + bytes(tail), bytes(tail) + rng.randbytes(size - tail),
+                   b"\xff" * size, rng.randbytes(size)][prof]
         with open(os.path.join(sdir, name), "wb") as f:
-            f.write(rng.randbytes(size))
+            f.write(content)
         return name, size
     # directory tree with an empty directory, an empty file, odd names and (nrec-dependent) bulk
     root = os.path.join(sdir, ["tree %d", "tre\u0301e %d", "\u212b tree %d"][rng.randrange(3)] % variant)
